@@ -297,8 +297,9 @@ def wilcoxon_gate_body():
     from stubs.npshim import npshim
     import warnings
     warnings.simplefilter("ignore")
-    pw.np = npshim
-    pw.ss = WilcoxonStub()
+    if not sx.cur().concrete:
+        pw.np = npshim
+        pw.ss = WilcoxonStub()                  # concrete replays run the real NumPy and the real SciPy test
     maximize = bool(sx.choose(2, "maximize"))
     n_startup = sx.choose([0, 1, 2, 3], "n_startup_steps")
     study = optuna.create_study(direction="maximize" if maximize else "minimize", storage=InMemoryStorage())
@@ -318,6 +319,11 @@ def wilcoxon_gate_body():
         strictly_better = (sc > sb) if maximize else (sc < sb)
         conds.append(sx.implies(strictly_better, sx.not_(r)))          # the documented safety: average better than the best trial => keep
     return sx.all_of(conds) if conds else True
+
+
+def _wilcoxon_gate_replay(payload):
+    from harness.c13 import make_wilcoxon_replay
+    return make_wilcoxon_replay(wilcoxon_gate_body, setup)(payload)
 
 
 def nop_body():
@@ -434,7 +440,8 @@ def obligations(tier):
         Obligation("wilcoxon-gates", wilcoxon_gate_body, setup, CODE, bounds=dict(n_startup_steps=[0, 1, 2, 3], best_steps=[0, 2, 3], cur_steps="subsets of {0,1,2}",
                                                                                  p_value="arbitrary (uninterpreted)"),
                    shard_depth=3, budget_s=600, classify=classify, require_reach=["prune-called"],
-                   describe="WilcoxonPruner: start-up gate and the average-is-best safety, for an arbitrary p-value"),
+                   describe="WilcoxonPruner: start-up gate and the average-is-best safety, for an arbitrary p-value",
+                   replay_custom=_wilcoxon_gate_replay),
         Obligation("nop", nop_body, setup, CODE, budget_s=120, classify=classify, require_reach=["prune-called"], describe="NopPruner never prunes"),
         Obligation("shim-validation", None, None, [], custom=shim_validation, describe="NumPy shim overrides vs real NumPy on concrete inputs"),
     ]
